@@ -35,6 +35,10 @@ Proof. exact SignedAdd_co_correct. Qed.
 Theorem C07_sub : forall wr a b, 0 <= wr -> Sub_propagate wr a b = spec_sub wr a b.
 Proof. exact Sub_eq. Qed.
 
+(* SubBorrowIn (repaired in /repo, docs/REPO_FIXES.md 47f090b) *)
+Theorem C07_sub_borrow_in : forall wr a b bi, 0 <= wr -> SubBorrowIn_propagate wr a b bi = spec_sub_borrow wr a b bi.
+Proof. exact SubBorrowIn_eq. Qed.
+
 Theorem C07_signed_sub : forall wa wb wr a b,
   1 <= wa <= wr -> 1 <= wb <= wr -> 0 <= a < 2 ^ wa -> 0 <= b < 2 ^ wb ->
   m_SignedSub wa wb wr a b = spec_ssub wa wb wr a b.
@@ -230,6 +234,7 @@ Print Assumptions C07_add_carry_out.
 Print Assumptions C07_signed_add.
 Print Assumptions C07_signed_add_carry_out.
 Print Assumptions C07_sub.
+Print Assumptions C07_sub_borrow_in.
 Print Assumptions C07_signed_sub.
 Print Assumptions C07_neg.
 Print Assumptions C07_abs.
